@@ -346,7 +346,7 @@ func runC17(c *mon.Ctx) {
 		}
 	}
 	// random histories
-	n := c.Pick(2000, 15000)
+	n := c.Pick(2000, 200000)
 	for i := int64(0); i < n; i++ {
 		if !c.Mine("random", i) {
 			continue
